@@ -10,16 +10,16 @@ CH = "CrossHair (symbolic execution of the repository's Python with z3), per-con
 CHECKS = {
     "C01": dict(
         technique="bounded SMT (z3) equivalence between the SQL regenerated from the real transpiler and a VTL reference interpreter over symbolic tables; models replayed through run()",
-        text="For ~200 (quick) / ~260 (thorough) script templates covering every element-wise operator group at dataset/dataset (equal and nested identifier sets), "
+        text="For ~350 (quick) / ~390 (thorough) script templates covering every element-wise operator group at dataset/dataset (equal and nested identifier sets), "
              "dataset/scalar, scalar/dataset, component/component and component/scalar level plus depth-2/3 compositions, the SQL the real transpiler emits "
              "(macros inlined from init.sql) is evaluated symbolically over ALL input tables of 2 (quick) / 3 (thorough) datapoints per dataset with nullable measures, "
              "and z3 decides that its result equals the VTL reference (matching on common identifiers, per-measure application, null propagation, Kleene logic, "
-             "absent partners, division by zero => runtime error). unsat = holds within the bound; every sat model is replayed through the real run().",
+             "absent partners, division by zero => runtime error), incl. cross-family compositions, two-statement variants and a systematic outer x inner nesting product. unsat = holds within the bound; every sat model is replayed through the real run().",
         note="Trusted: sqlglot + my SQL semantics (self-checked per template against real DuckDB on random concrete tables on every run), z3, AST shapes. Reals stand for DOUBLE; "
              "round/ln/exp/... are uninterpreted symbols shared with the reference. More than 3 datapoints per dataset is outside.",
         ref="3 C01", engine="sqlsmt"),
     "C02": dict(technique='bounded SMT (z3) equivalence between the SQL regenerated from the real transpiler and a VTL reference interpreter over symbolic tables; models replayed through run()', engine="sqlsmt", ref="3 C02", note='Trusted: sqlglot + vt/sqlsmt SQL semantics (self-checked per template against real DuckDB on random concrete tables on every run), z3, hand-built AST shapes. Reals stand for DOUBLE.',
-        text="Every single clause (filter, calc, keep, drop, rename, sub), every well-typed chain of two (thorough: three) and clauses applied to a join result: the emitted SQL is "
+        text="Every single clause (filter, calc, keep, drop, rename, sub, unpivot), every well-typed chain of two (thorough: three), clauses applied to a join result and to the sub-query of every other operator family (~200 templates): the emitted SQL is "
              "evaluated symbolically over all input tables of 2 (thorough 3) datapoints and z3 decides equality with the reference (filter keeps TRUE rows only; calc adds/overwrites the "
              "named components; keep/drop/rename/sub touch only the listed components; sub fixes and removes identifiers). unsat = holds within the bound."),
     "C03": dict(technique='bounded SMT (z3) equivalence between the SQL regenerated from the real transpiler and a VTL reference interpreter over symbolic tables; models replayed through run()', engine="sqlsmt", ref="3 C03", note='Trusted: sqlglot + vt/sqlsmt SQL semantics (self-checked per template against real DuckDB on random concrete tables on every run), z3, hand-built AST shapes. Reals stand for DOUBLE.' + " var/stddev are shared symbols over (count, sum, sum of squares); median is defined by counting with witnesses.",
@@ -35,12 +35,12 @@ CHECKS = {
              "(UNION ALL + ROW_NUMBER + QUALIFY, SEMI/ANTI joins, CTEs) equals the keyed-set reference (union keeps the first operand holding a key; measures from the retained datapoint)."),
     "C10": dict(technique="bounded SMT (z3) invariant queries over the symbolic result of the SQL regenerated from the real transpiler + structure of a concrete run() against semantic_analysis()",
         engine="sqlsmt", ref="3 C10", note='Trusted: sqlglot + vt/sqlsmt SQL semantics (self-checked against real DuckDB in the C01-C05 checks), z3, hand-built AST shapes.' + " Value-level type conformity only (pandas dtypes are outside).",
-        text="For every template of the behavioural properties the solver decides, over all input tables within the row bound, that no result datapoint has a null or repeated identifier, a null "
+        text="For every template of the behavioural properties (C01-C07, C09, C28: ~1200 scripts) the solver decides, over all input tables within the row bound, that no result datapoint has a null or repeated identifier, a null "
              "in a component semantic analysis declares non-nullable, a non-integral value in an Integer component, and that a dataset without identifiers has at most one datapoint; a solver-chosen "
              "concrete input is then pushed through the real run() and the returned names, roles, types, nullability and column order are compared with semantic_analysis()."),
     "C33": dict(technique="bounded SMT (z3) self-composition: the SQL regenerated from the real transpiler evaluated under two symbolic physical row orders of the same symbolic datapoints",
         engine="sqlsmt", ref="3 C33", note='Trusted: sqlglot + vt/sqlsmt SQL semantics (self-checked against real DuckDB in the C01-C05 checks), z3, hand-built AST shapes.' + " Physical order model: scan order of an input table = its row order; UNION ALL concatenates.",
-        text="Each template is evaluated twice over the same symbolic datapoints with two independent symbolic row orders per input (order indices feed ROW_NUMBER() OVER (), unordered list() "
+        text="Each template (~1200 scripts of C01-C07, C09, C28) is evaluated twice over the same symbolic datapoints with two independent symbolic row orders per input (order indices feed ROW_NUMBER() OVER (), unordered list() "
              "and order ties); z3 decides the two results are equal as sets (unsat). Partial: input forms (CSV/Parquet) and column reordering are decided inside DuckDB/pandas and are outside."),
     "C06": dict(technique="bounded SMT (z3) equivalence between the window SQL regenerated from the real transpiler (partitions, orderings, ROWS/RANGE frames encoded over symbolic tables) and the VTL definition of each analytic function; models replayed through run()",
         engine="sqlsmt", ref="3 C06", note="Trusted: sqlglot + vt/sqlsmt window semantics (positions by counting, default/ROWS/RANGE frames; self-checked against real DuckDB per template), z3, AST shapes.",
